@@ -1,6 +1,8 @@
 use std::{
+    ffi::OsString,
     fs,
     io::{self, IsTerminal, Read, Write},
+    path::Path,
     process::exit,
 };
 
@@ -31,6 +33,49 @@ fn render_diff_header_path(path: &str, is_new: bool, style: cmd_args::DiffStyle)
 
 #[global_allocator]
 static GLOBAL: mimalloc::MiMalloc = mimalloc::MiMalloc;
+
+/// Replace the content of `path` without ever exposing a truncated or partially written file.
+///
+/// The new content is written to a temporary file in the same directory, flushed to disk and
+/// then renamed over the target, so at every point (crash, full disk, file-size limit) the
+/// target holds either its complete old or its complete new content. On failure the temporary
+/// file is removed and the error is returned.
+fn write_file_atomically(path: &Path, contents: &[u8]) -> io::Result<()> {
+    // Write through symlinks instead of replacing them.
+    let target = fs::canonicalize(path).unwrap_or_else(|_| path.to_path_buf());
+    let dir = target
+        .parent()
+        .filter(|parent| !parent.as_os_str().is_empty())
+        .unwrap_or(Path::new("."));
+    let file_name = target
+        .file_name()
+        .ok_or_else(|| io::Error::new(io::ErrorKind::InvalidInput, "path has no file name"))?;
+    let mut tmp_name = OsString::from(".");
+    tmp_name.push(file_name);
+    tmp_name.push(format!(".luafmt-tmp-{}", std::process::id()));
+    let tmp_path = dir.join(tmp_name);
+
+    let result = (|| {
+        let mut tmp = fs::OpenOptions::new()
+            .write(true)
+            .create(true)
+            .truncate(true)
+            .open(&tmp_path)?;
+        // Keep the permissions of the file being replaced.
+        if let Ok(metadata) = fs::metadata(&target) {
+            tmp.set_permissions(metadata.permissions())?;
+        }
+        tmp.write_all(contents)?;
+        tmp.sync_all()?;
+        drop(tmp);
+        fs::rename(&tmp_path, &target)
+    })();
+
+    if result.is_err() {
+        let _ = fs::remove_file(&tmp_path);
+    }
+    result
+}
 
 fn read_stdin_to_string() -> io::Result<String> {
     let mut s = String::new();
@@ -332,7 +377,7 @@ fn main() {
                         }
                     }
                 } else if args.write {
-                    if changed && let Err(e) = fs::write(path, formatted) {
+                    if changed && let Err(e) = write_file_atomically(path, formatted.as_bytes()) {
                         eprintln!("Failed to write {}: {e}", path.to_string_lossy());
                         exit_code = 2;
                     }
